@@ -48,6 +48,7 @@ func (c *Conn) Read(p []byte) (int, error) {
 		return 0, ErrClosed
 	}
 	vrt.Point("conn-read "+c.Name, true, func() bool { return len(c.in) > 0 || c.inEOF || c.inReset || c.Closed })
+	vrt.RaceAcquire(c)
 	if c.Closed {
 		return 0, ErrClosed
 	}
@@ -83,12 +84,14 @@ func (c *Conn) Write(p []byte) (int, error) {
 	}
 	b := make([]byte, len(p))
 	copy(b, p)
+	vrt.RaceRelease(c)
 	c.Out = append(c.Out, b)
 	c.OutBytes += len(b)
 	return len(p), nil
 }
 
 func (c *Conn) Close() error {
+	vrt.RaceRelease(c)
 	if c.Closed {
 		return ErrClosed
 	}
@@ -104,6 +107,7 @@ func (c *Conn) Feed(b []byte) {
 		return
 	}
 	vrt.Point("client-write "+c.Name, false, nil)
+	vrt.RaceRelease(c)
 	c.in = append(c.in, append([]byte(nil), b...))
 }
 
